@@ -21,6 +21,8 @@ import (
 	"io"
 	"math/rand"
 	"net"
+	nethttp "net/http"
+	"net/http/httptest"
 	"net/url"
 	"os"
 	"os/exec"
@@ -40,6 +42,7 @@ import (
 	cbencode "github.com/chihaya/chihaya/frontend/http/bencode"
 	"github.com/chihaya/chihaya/frontend/udp"
 	"github.com/chihaya/chihaya/middleware"
+	cjwt "github.com/chihaya/chihaya/middleware/jwt"
 	"github.com/chihaya/chihaya/pkg/stop"
 	"github.com/chihaya/chihaya/storage"
 	"github.com/chihaya/chihaya/storage/memory"
@@ -496,6 +499,101 @@ func c16Group(o *Out, kind string, ms []c16Mem_, order []int) {
 		Obs: map[string]interface{}{"done": done, "res": obs}})
 }
 
+// ---------------------------------------------------------------- (g) middleware.Logic.Stop
+
+// c16StopHook is a hook that is also a stop.Stopper reporting the given errors.
+type c16StopHook struct {
+	c16Gate
+	codes []*int64
+}
+
+func (h *c16StopHook) Stop() stop.Result {
+	c := make(stop.Channel)
+	go func() { c.Done(c16Errs(h.codes)...) }()
+	return c.Result()
+}
+
+// c16Mw: stopping the middleware.  The members of Logic.Stop's group are the hooks that are Stoppers: test hooks
+// reporting errors, hooks that are no Stoppers (skipped), and the real JWT hook, whose refresh goroutine is idle
+// (state 1) or inside a fetch the JWK endpoint never answers (state 2).  Stop must deliver the members' errors
+// whatever the hook's own goroutine is doing.
+func c16Mw(o *Out, kind string, state int, layout []int, codes [][]*int64) {
+	// layout: per hook 0 = plain hook (no Stopper), 1 = stoppable test hook (next entry of codes), 2 = the JWT hook;
+	// the first half are pre-hooks, the rest post-hooks
+	var jwks = `{"keys":[]}`
+	arrived := make(chan struct{}, 16)
+	gate := make(chan struct{})
+	var hits int32
+	ts := httptest.NewServer(nethttp.HandlerFunc(func(w nethttp.ResponseWriter, r *nethttp.Request) {
+		if atomic.AddInt32(&hits, 1) > 1 && state == 2 {
+			select {
+			case arrived <- struct{}{}:
+			default:
+			}
+			<-gate // never answered while the scenario runs
+		}
+		w.Write([]byte(jwks))
+	}))
+	defer ts.Close()
+	defer close(gate)
+	var hooks []middleware.Hook
+	var members []string
+	ci := 0
+	for _, l := range layout {
+		switch l {
+		case 0:
+			hooks = append(hooks, newC16Gate(true))
+		case 1:
+			var cs []*int64
+			if ci < len(codes) {
+				cs = codes[ci]
+			}
+			ci++
+			hooks = append(hooks, &c16StopHook{c16Gate: *newC16Gate(true), codes: cs})
+			members = append(members, c16RawCoq(cs))
+		case 2:
+			iv := 24 * time.Hour
+			if state == 2 {
+				iv = 2 * time.Millisecond
+			}
+			h, err := cjwt.NewHook(cjwt.Config{Issuer: "i", Audience: "a", JWKSetURL: ts.URL, JWKUpdateInterval: iv})
+			if err != nil {
+				panic("c16: jwt.NewHook: " + err.Error())
+			}
+			hooks = append(hooks, h)
+			members = append(members, "[]")
+		}
+	}
+	if state == 2 && !c16Sig(arrived, c16Long) {
+		panic("c16: the JWT hook never refreshed")
+	}
+	half := len(hooks) / 2
+	ps := c16Mem()
+	// two slices of their own: NewLogic appends to the pre-hook slice it is given
+	pre := append([]middleware.Hook{}, hooks[:half]...)
+	post := append([]middleware.Hook{}, hooks[half:]...)
+	lg := middleware.NewLogic(middleware.ResponseConfig{AnnounceInterval: time.Minute, MinAnnounceInterval: time.Second}, ps, pre, post)
+	res := &c16Res{ch: lg.Stop()}
+	done := res.wait(c16Long / 4)
+	var obs []*int64
+	for _, e := range res.errs {
+		if e == nil {
+			obs = append(obs, nil)
+			continue
+		}
+		v := int64(-1)
+		if n, err := strconv.ParseInt(strings.TrimPrefix(e.Error(), "e"), 10, 64); err == nil {
+			v = n
+		}
+		obs = append(obs, &v)
+	}
+	<-ps.Stop()
+	o.add(Case{Kind: kind,
+		Coq: fmt.Sprintf("CMwStop %d %s %s %s", state, cList(members), cBool(done), c16RawCoq(obs)),
+		In:  map[string]interface{}{"t": "mwstop", "state": state, "layout": layout, "codes": codes},
+		Obs: map[string]interface{}{"done": done, "res": obs}})
+}
+
 // ---------------------------------------------------------------- (a) gated hooks + Stop
 
 func c16Gated(o *Out, fe int, scrape bool, mode int, slow bool) {
@@ -928,6 +1026,16 @@ func c16Replay(o *Out, in map[string]interface{}) error {
 		c16Leak(o, int(jInt(in["fe"])), int(jInt(in["nreq"])))
 	case "afterstop":
 		c16AfterStop(o, int(jInt(in["fe"])), int(jInt(in["store"])))
+	case "mwstop":
+		var layout []int
+		var codes [][]*int64
+		if err := reJSON(in["layout"], &layout); err != nil {
+			return err
+		}
+		if err := reJSON(in["codes"], &codes); err != nil {
+			return err
+		}
+		c16Mw(o, "replay", int(jInt(in["state"])), layout, codes)
 	case "reload":
 		var ops []c16ROp
 		if err := reJSON(in["ops"], &ops); err != nil {
@@ -1016,6 +1124,40 @@ func c16Stream(o *Out, rng *rand.Rand, n int) {
 		}
 		p := rng.Perm(nm)
 		c16Group(o, "group-blocked", ms, p[:rng.Intn(nm)]) // some member never completes
+	}
+
+	// (g) stopping the middleware: stoppable hooks with errors, plain hooks, the JWT hook idle / inside a fetch that hangs
+	c16Mw(o, "mw-stop", 0, []int{1, 0, 1, 1}, [][]*int64{{iv(1)}, {}, {iv(2), iv(3)}})
+	c16Mw(o, "mw-stop", 0, []int{0, 0}, nil)
+	c16Mw(o, "mw-stop", 1, []int{2, 0}, nil)
+	c16Mw(o, "mw-stop", 1, []int{1, 2, 0, 1}, [][]*int64{{iv(4)}, {iv(5)}})
+	c16Mw(o, "mw-stop", 2, []int{2, 0}, nil)
+	c16Mw(o, "mw-stop", 2, []int{0, 1, 1, 2}, [][]*int64{{}, {iv(6), iv(7)}})
+	for k := 0; k < 2*reps; k++ {
+		var layout []int
+		var codes [][]*int64
+		st := rng.Intn(3)
+		for i := 2 + rng.Intn(4); i > 0; i-- {
+			l := rng.Intn(2)
+			if l == 1 {
+				var cs []*int64
+				for j := rng.Intn(3); j > 0; j-- {
+					cs = append(cs, iv(int64(100+10*i+j)))
+				}
+				codes = append(codes, cs)
+			}
+			layout = append(layout, l)
+		}
+		if st > 0 {
+			layout[rng.Intn(len(layout))] = 2
+			codes = nil
+			for i, l := range layout {
+				if l == 1 {
+					codes = append(codes, []*int64{iv(int64(200 + i))})
+				}
+			}
+		}
+		c16Mw(o, "mw-stop", st, layout, codes)
 	}
 
 	// (a) gated hooks
